@@ -3,6 +3,7 @@ From Coq Require Import List Bool ZArith Sorting.Permutation.
 From Coq Require Import Strings.Byte.
 From LLIR Require Import Lib.Bytes Model.Skeleton Proofs.SkeletonProofs.
 From LLIR Require Import Pipeline.MicroIR Pipeline.MicroIRResolve.
+From LLIR Require Gen.Printers Proofs.ErrorFlowProofs.
 Import ListNotations.
 
 (* module level (Model/Skeleton.v: the name-resolution skeleton of asm/translate.go, any number of
@@ -65,3 +66,15 @@ Proof. exact alias_to_undefined_rejected. Qed.
 Example C05_typedef_after_opaque_refuted :
   is_ok (Skeleton.translate id_oracle (fun l => l) [mk NType nameA KOpaque []; mk NType nameA KPlain []]) = true.
 Proof. exact typedef_after_opaque_accepted. Qed.
+
+(* errors are reported, not swallowed, on the code as it is now: over the regenerated bodies of package asm (196:
+   type constructors, body translators of the 66 instruction and terminator kinds, of the constant expressions
+   and of the 28 debug-info nodes, enum converters) every statement that binds err is directly followed by
+   `if err != nil { .. }`, and the branch of every such check ends in a return or a panic -- so the error a lookup
+   of an undefined name produces reaches the caller from every use site *)
+Theorem C05_errors_are_checked :
+  forallb (fun p => Nat.eqb (ErrorFlowProofs.unchecked (Printers.p_body p)) 0) ErrorFlowProofs.asm_bodies = true.
+Proof. exact ErrorFlowProofs.errors_are_checked. Qed.
+Theorem C05_errors_are_returned :
+  forallb (fun p => Nat.eqb (List.length (flat_map ErrorFlowProofs.swallowed_s (Printers.p_body p))) 0) ErrorFlowProofs.asm_bodies = true.
+Proof. exact ErrorFlowProofs.errors_are_returned. Qed.
